@@ -16,7 +16,7 @@ PROP = dict(
          "source text; sources: fixed witnesses, byte sources with invalid UTF-8, the repository's tests/data/*.src, seeded generated sources (quoted fields, "
          "repeated delimiters, comments, duplicates, homophones, prefix keys, CRLF, no final newline, non-BMP text, u32 "
          "limits) x all 8 configurations (2 back ends x keep x skip) in the source's format, every dump compiled again in "
-         "its own format, and ~30 single-line corruptions per line (all lines of the first sources, sampled for the rest) "
+         "its own format, and ~35 single-line corruptions per line (all lines of the first sources, sampled for the rest) "
          "x skip/no-skip. distinct = distinct record text",
     trusted_base=["kernel evaluation (`decide`) of small concrete witnesses and of one 42-row table fact; no native_decide",
                   "`chewing-cli info` (metadata given with -n/-c/-l/-r is reported by both back ends, text and JSON) is checked by "
@@ -33,12 +33,15 @@ PROP = dict(
                   "leaves included, is the model's phraseSort (leaf_sort_single / leaf_sort_multi_unique are the earlier special cases); "
                   "leaf_sort_is_C11: phraseSort = C11's sortLeaf"],
     assumptions=["text is modelled as a list of code points; sources are bytes only at the entrance (readRawLines / compileRaw: "
-                 "strict UTF-8 decoding per line), where a line that is not valid UTF-8 ends the run (F45)",
-                 "known findings: F27 (no-syllables, length-mismatch, empty-phrase, phrase-whitespace, word-freq-unchecked: malformed lines the "
-                 "parser accepts), F45 invalid-utf8 (a line that is not valid UTF-8 aborts the run unnumbered, --skip-invalid or "
-                 "not), F18-tone1 (a first-tone mark does not survive the dump), F34-sqlite-order (SQLite candidate "
-                 "order of one-syllable keys changes when the dump is compiled again) — each refuted with a witness and "
-                 "excluded by an explicit hypothesis in the partial theorem"],
+                 "strict UTF-8 decoding per line), where a line that is not valid UTF-8 is a malformed line like any other (F45, fixed)",
+                 "FIXED in the repository (six fix: commits in tools/src/init_database.rs, shipped sources compile to byte-identical files): "
+                 "F27 no-syllables, empty-phrase, word-freq-unchecked, phrase-whitespace (rejected, not trimmed), length-mismatch, and F45 "
+                 "invalid-utf8 - the statements they refuted (MalformedFull, SkipInvalidFull) are theorems now and the harness oracle has "
+                 "no class for them any more (a recurrence is `new`)",
+                 "known findings left (design, not the compiler's line checking): F18-tone1 (a first-tone mark does not survive the dump; "
+                 "C13's finding) and F34-sqlite-order (SQLite candidate order of one-syllable keys changes when the dump is compiled "
+                 "again) — each refuted with a witness and excluded by an explicit hypothesis in the partial theorem",
+                 "other I/O errors of the read loop (not InvalidData) still end the run; file I/O is trusted"],
 )
 
 MANIFEST = dict(
@@ -53,14 +56,19 @@ MANIFEST = dict(
          "parse_source_line(_quoted) per line; dump_compile_roundtrip for everything the compiler accepts whose entries are "
          "well-formed records; recompiled_lookup_iff (lookup order survives exactly outside class F34Changes = SQLite, "
          "one-syllable key, candidates not in ascending text order) with recompiled_lookup_sqlite_single (what the recompiled "
-         "SQLite file answers); malformed_reported / reported_iff (exactly the rejected lines are reported, with their 1-based "
-         "numbers; nothing is built unless --skip-invalid) / skip_invalid_keeps_valid; accepted_iff + rejected_cause (exactly "
-         "which lines parse_line accepts). REFUTED on the unchanged code, with witness + partial theorem each: MalformedFull "
-         "(F27: lines without syllables, with a syllable/character count mismatch, an empty phrase, white space at the ends "
-         "of the phrase field, or an unchecked one-character frequency are accepted), SkipInvalidFull (F45: a line that is not valid UTF-8 stops the run with an "
-         "I/O error, no line number, --skip-invalid or not; raw_run_is_text_run outside that class), RoundTripFull (F18: a "
-         "first-tone mark is not dumped), RecompiledLookupFull (F34). CORRESPONDENCE: the REAL chewing-cli binary built from the tree is run on fixed, repository and generated "
-         "sources and on ~30 single-line corruptions per line; exit status, reported line numbers, output existence, complete "
+         "SQLite file answers); malformed_full (FULL strength since the fixes of F27: every line outside the documented "
+         "format - phrase non-empty without comma/whitespace, u32 frequency, at least one syllable, one syllable per character - is "
+         "rejected, for every delimiter, with or without --keep-word-freq) with malformed_reported / malformed_reported_full / reported_iff "
+         "(exactly the rejected lines are reported, with their 1-based numbers; nothing is built unless --skip-invalid) / "
+         "skip_invalid_keeps_valid; accepted_iff + rejected_cause (exactly which lines parse_line accepts, and what each of the nine "
+         "causes means); on files as BYTES (fix of F45): skip_invalid_full (FULL strength: --skip-invalid always builds, from exactly the "
+         "valid lines), invalid_utf8_reported / malformed_reported_bytes (a line that is not valid UTF-8 or not in the documented format is "
+         "reported with its number), raw_reported_iff, raw_run_is_text_run. dump_compile_roundtrip_source now needs ONE hypothesis (no "
+         "first-tone mark in the source). REFUTED on the unchanged code, with witness + partial theorem each: RoundTripFull (F18: a "
+         "first-tone mark is not dumped), RecompiledLookupFull (F34). FIXED by six fix: commits (3149ea9 no-syllables, 9f78db5 empty-phrase, "
+         "38ee0e4 word-freq-unchecked, 76e3e3a invalid-utf8, fd01973 phrase-whitespace, 7df7fb4 length-mismatch): f27_witnesses_rejected "
+         "keeps the former witnesses as theorems about the repaired parser. CORRESPONDENCE: the REAL chewing-cli binary built from the tree is run on fixed, repository and generated "
+         "sources and on ~35 single-line corruptions per line; exit status, reported line numbers, output existence, complete "
          "dump texts and library lookups (original and recompiled file) are recomputed by the model; the harness oracle "
          "evaluates the property statement directly and classifies every failure exactly (known class or new).",
     note="Trusted: Lean kernel (axioms propext, Classical.choice, Quot.sound only), tools/extract.py, the harness and the "
